@@ -1,5 +1,5 @@
 # props/C07.py — fixed_vector behaves as a bounded sequence, including copy, move and assignment
-from props.vec_common import alias_cases, VecCheck, exhaustive, fault_cases, random_case, malformed_cases, small_alphabet_cases
+from props.vec_common import before_begin_cases, alias_cases, VecCheck, exhaustive, fault_cases, random_case, malformed_cases, small_alphabet_cases
 
 
 class C07(VecCheck):
@@ -25,7 +25,7 @@ class C07(VecCheck):
                   "with rbegin..rend, not modelled separately; the correspondence is bounded-exhaustive + sampled, not proved")
     rule = ("operation sequences for the pool interpreter, full observable state (size, capacity, operator[], at() for 0..capacity+1, std::get, "
             "begin..end, rbegin..rend, nitro::lang::reverse, data(), front/back, const and non-const) compared after every step: (i) exhaustive "
-            "depth 3 over the full alphabet and depth 4 (quick) / 5 (thorough) over a reduced alphabet, capacities 0..3, values {1,2,3}, every "
+            "depth 3 over the full alphabet and depth 4 (quick) / 5 (thorough) over a reduced alphabet, capacities 0..3, values {1,2,3} and the argument-less emplace_back()/emplace(pos) (a value-initialised element), every "
             "position 0..capacity, copy/move/assign between objects included, copyable and move-only element types; (ii) random sequences of "
             "length 30 over three objects (capacities 0..5, values 1..9); (iii) a sample of fault cases continued after the throw; (iv) malformed "
             "stream; (v) corpus of the pre-repair witnesses; (vi) aliasing arguments: emplace(begin()+pos, v[k]) for every k relative to pos, "
@@ -44,6 +44,9 @@ class C07(VecCheck):
         if tier == "thorough":
             for c in alias_cases("T", range(4), (), faults=True):
                 yield c, "alias-faults-T"
+        if tier == "thorough":
+            for c in before_begin_cases("C", caps):
+                yield c, "before-begin-C"
         for c in exhaustive("C", caps, 3, True):
             yield c, "exh3-C"
         for c in small_alphabet_cases("C", caps, 4 if tier == "quick" else 5):
